@@ -142,6 +142,12 @@ Fixpoint adecls (p : pt) (en : env) (mm : mmap) : list window :=
   | Multi ms subs => eval_decls ms en mm ++ flat_map (fun s => adecls s en mm) subs
   | Arith ms l r => eval_decls ms en mm ++ adecls l en mm ++ adecls r en mm
   | Map pm mml _ b => adecls b (menv pm en) (mcomp mml mm)
+  (* round 4: wrappers around an atomic part inside an atomic composite (all of them answer _is_atomic() = True): a
+     reversed part mirrors its windows about its own duration, the pass-through nodes forward them; an identifier
+     listed in to_single_waveform means nothing below an atomic node *)
+  | Rev b => mirror (tdur b en) (adecls b en mm)
+  | Pass b => adecls b en mm
+  | Single b => adecls b en mm
   | _ => []
   end.
 
@@ -181,6 +187,9 @@ Fixpoint ainside (D : Qc) (p : pt) (en : env) : bool :=
   | Multi ms subs => decls_inside D ms en && forallb (fun s => ainside D s en) subs
   | Arith ms l r => decls_inside D ms en && ainside D l en && ainside D r en
   | Map pm _ _ b => ainside D b (menv pm en)
+  | Rev b => Qcleb 0 (tdur b en) && Qcleb (tdur b en) D && ainside (tdur b en) b en
+  | Pass b => ainside D b en
+  | Single b => ainside D b en
   | _ => true
   end.
 
@@ -208,6 +217,7 @@ Fixpoint is_atomic (p : pt) : bool :=
   | Multi _ subs => forallb is_atomic subs
   | Arith _ l r => is_atomic l && is_atomic r
   | Map _ _ _ b => is_atomic b
+  | Rev b | Pass b | Single b => is_atomic b
   | _ => false
   end.
 (* all playing parts of an atomic composite have the same duration (otherwise the waveform constructor raises) *)
@@ -218,6 +228,7 @@ Fixpoint adur_ok (p : pt) (en : env) : bool :=
   | Arith _ l r => adur_ok l en && adur_ok r en &&
                    (negb (plays l en) || negb (plays r en) || Qceqb (tdur l en) (tdur r en))
   | Map pm _ _ b => adur_ok b (menv pm en)
+  | Rev b | Pass b | Single b => adur_ok b en
   | _ => false
   end.
 
